@@ -1066,6 +1066,118 @@ theorem composite_builtin_never_faults (ps : List (Propagator RCtx Carrier)) (hp
     rw [h1]
     exact ih (fun q hq => hps q (by simp [hq])) c1
 
+/-! ## Further ways to obtain and to read a baggage; `Fields`; `NoOpPropagator` -/
+
+/-- **the container constructor keeps the caller's pairs in order** (as NUL-terminated copies: each string up to its
+    first NUL byte); nothing is dropped although `AddEntry`-style capacity is fixed at the container's size -/
+theorem ofPairs_eq (kvs : List (Bytes × Bytes)) : ofPairs kvs = kvs.map fun e => (cstr e.1, cstr e.2) := by
+  unfold ofPairs
+  have h := foldl_add (fun _ => true) (kvs.map fun e => (cstr e.1, cstr e.2)) (⟨kvs.length, []⟩ : KvProps) (by simp)
+  rw [List.foldl_map] at h
+  have hf : ∀ l : Entries, l.filter (fun _ => true) = l := fun l => List.filter_eq_self.2 (fun _ _ => rfl)
+  rw [hf] at h
+  simpa using congrArg KvProps.entries h
+
+/-- printable pairs are kept verbatim -/
+theorem ofPairs_printable (kvs : List (Bytes × Bytes)) (h : ∀ e ∈ kvs, Printable e.1 ∧ Printable e.2) : ofPairs kvs = kvs := by
+  rw [ofPairs_eq]
+  induction kvs with
+  | nil => rfl
+  | cons e t ih =>
+    have he := h e (by simp)
+    rw [List.map_cons, cstr_printable _ he.1, cstr_printable _ he.2, ih (fun x hx => h x (by simp [hx]))]
+
+/-- **the round trip holds as well for a baggage built by the container constructor** from round-trippable entries -/
+theorem fromHeader_toHeader_ofPairs (kvs : List (Bytes × Bytes)) (h : RoundTrippable kvs) :
+    fromHeader (toHeader (ofPairs kvs)) = .ok kvs := by
+  rw [ofPairs_printable kvs (fun e he => ⟨(h.1 e he).2.1, (h.1 e he).2.2.1⟩)]
+  exact fromHeader_toHeader kvs h
+
+theorem visitLoop_never : ∀ (es : Entries) (calls : Nat) (seen : Entries), visitLoop 0 es calls seen = (seen ++ es, true)
+  | [], _, seen => by simp [visitLoop]
+  | e :: t, calls, seen => by
+    unfold visitLoop
+    rw [if_neg (by omega), visitLoop_never t (calls + 1) (seen ++ [e])]
+    simp
+
+theorem visitLoop_spec (stop : Nat) : ∀ (es : Entries) (calls : Nat) (seen : Entries), calls < stop →
+    visitLoop stop es calls seen =
+      if stop - calls ≤ es.length then (seen ++ es.take (stop - calls), false) else (seen ++ es, true)
+  | [], calls, seen, h => by
+    have h0 : ¬ (stop - calls ≤ 0) := by omega
+    simp [visitLoop, h0]
+  | e :: t, calls, seen, h => by
+    unfold visitLoop
+    by_cases hc : calls + 1 = stop
+    · have h1 : stop - calls = 1 := by omega
+      rw [if_pos hc, h1]
+      simp
+    · rw [if_neg hc, visitLoop_spec stop t (calls + 1) (seen ++ [e]) (by omega)]
+      obtain ⟨m, hm⟩ : ∃ m, stop - calls = m + 1 := ⟨stop - calls - 1, by omega⟩
+      have hm' : stop - (calls + 1) = m := by omega
+      rw [hm, hm']
+      simp [List.take_succ_cons]
+
+/-- **`GetAllEntries` hands over every entry, in order, and reports `true` when the callback never declines** -/
+theorem visit_never (es : Entries) : visit es 0 = (es, true) := by
+  unfold visit; rw [visitLoop_never]; simp
+
+/-- … **and stops right after the call the callback declines, reporting `false`** -/
+theorem visit_stops (es : Entries) (n : Nat) (h1 : 1 ≤ n) (h2 : n ≤ es.length) : visit es n = (es.take n, false) := by
+  unfold visit; rw [visitLoop_spec n es 0 [] (by omega), if_pos (by omega)]; simp
+
+theorem visit_beyond (es : Entries) (n : Nat) (h : es.length < n) : visit es n = (es, true) := by
+  unfold visit; rw [visitLoop_spec n es 0 [] (by omega), if_neg (by omega)]; simp
+
+/-- a built-in propagator's `Fields` with a callback that never declines: every name, in order -/
+theorem fieldsOf_never : ∀ (names : List Bytes) (cb : FieldsCb), cb.stopAt = 0 →
+    fieldsOf names cb = ({ cb with seen := cb.seen ++ names, calls := cb.calls + names.length }, true)
+  | [], cb, _ => by simp [fieldsOf]
+  | n :: t, cb, h => by
+    have hc : cb.call n = ({ cb with seen := cb.seen ++ [n], calls := cb.calls + 1 }, true) := by
+      unfold FieldsCb.call; rw [h]; simp
+    unfold fieldsOf
+    rw [hc]
+    simp only []
+    rw [fieldsOf_never t { cb with seen := cb.seen ++ [n], calls := cb.calls + 1 } h]
+    simp [Nat.add_assoc, Nat.add_comm 1]
+
+theorem compositeFieldsLoop_never : ∀ (parts : List (List Bytes)) (cb : FieldsCb), cb.stopAt = 0 →
+    compositeFieldsLoop parts true cb =
+      ({ cb with seen := cb.seen ++ parts.flatten, calls := cb.calls + parts.flatten.length }, true)
+  | [], cb, _ => by simp [compositeFieldsLoop]
+  | p :: t, cb, h => by
+    unfold compositeFieldsLoop
+    rw [if_pos rfl, fieldsOf_never p cb h]
+    simp only []
+    rw [compositeFieldsLoop_never t { cb with seen := cb.seen ++ p, calls := cb.calls + p.length } h]
+    simp [Nat.add_assoc]
+
+/-- **`CompositePropagator::Fields` announces the names of every configured propagator, in order** -/
+theorem compositeFields_never (parts : List (List Bytes)) (cb : FieldsCb) (h : cb.stopAt = 0) :
+    compositeFields parts cb = ({ cb with seen := cb.seen ++ parts.flatten, calls := cb.calls + parts.flatten.length }, true) :=
+  compositeFieldsLoop_never parts cb h
+
+/-- once a part has reported `false` no later part is asked and the result is `false` -/
+theorem compositeFields_false_sticky : ∀ (parts : List (List Bytes)) (cb : FieldsCb),
+    compositeFieldsLoop parts false cb = (cb, false)
+  | [], _ => rfl
+  | _ :: t, cb => by
+    unfold compositeFieldsLoop
+    rw [if_neg (by simp)]
+    exact compositeFields_false_sticky t cb
+
+/-- `NoOpPropagator` (also the never-set global propagator) changes neither carrier nor context; inside a composite it
+    can be dropped -/
+theorem noop_identity {Ctx Car : Type} (car : Car) (ctx : Ctx) :
+    (noop : Propagator Ctx Car).inject car ctx = car ∧ (noop : Propagator Ctx Car).extract car ctx = ctx := ⟨rfl, rfl⟩
+
+theorem composite_noop_cons {Ctx Car : Type} (empty : Ctx) (ps qs : List (Propagator Ctx Car)) (car : Car) (ctx : Ctx) :
+    (composite empty (ps ++ noop :: qs)).inject car ctx = (composite empty (ps ++ qs)).inject car ctx ∧
+    (composite empty (ps ++ noop :: qs)).extract car ctx = (composite empty (ps ++ qs)).extract car ctx := by
+  simp only [composite_inject_eq_foldl, composite_extract_eq_foldl, List.foldl_append, List.foldl_cons]
+  exact ⟨rfl, rfl⟩
+
 /-! ## Non-vacuity -/
 
 /-- `userId=alice`, `server node=A=1,b%+;x` (needs `+`, `%3D`, `%2C`, `%25`, `%2B`, `%3B`…), `k=v;prop=1; p2` (metadata) -/
